@@ -10,4 +10,5 @@ PROPERTY Act_RefusedPushChangesNothing
 PROPERTY Act_PopUndoesPush
 PROPERTY Act_WalkerLeavesChain
 PROPERTY Act_WalkerReturns
+PROPERTY Act_PushListPartial
 CHECK_DEADLOCK FALSE
